@@ -395,6 +395,7 @@ pub fn c19(tier: &str, seed: u64) -> Check {
         spaces.push(c19_space(8));
     }
     spaces.push(crate::props::large::c19_big(thorough));
+    spaces.push(crate::props::huge::space("C19"));
     let report = super::report(
         "C19",
         tier,
